@@ -224,7 +224,53 @@ def c17(tier, seed):
     m = ef.full_model("margin-space", ["S1", "F4"], ["S1", "F4"], grid, ev, tg, lats=(0,), delays=(0, 1), fees="free",
                       thr=F(1, 16), maxsteps=3, invariants=["LedgerReplay"])
     ef.run_models(rep, [m], {"pos", "track_trades"})
+    xy_bounds(rep)
     return rep.finish()
+
+
+def xy_bounds(rep):
+    """the tabular environment declares its action space through max_long / max_short: a bound of exactly 0 (long-only,
+    short-only) is a bound like any other.  (Harness-level instantiation of MalformedRejected for this constructor.)"""
+    from . import impl, tabular_check as tc
+    import numpy as np
+    from tradingenv.env import TradingEnvXY
+    p = {"dx": set(d for d in range(1, 20) if (d - 1) % 7 < 5), "w": 1, "s": 0, "start": 0, "end": 0}
+    p["dy"] = set(p["dx"])
+    X, Y, rate = tc.tables(p)
+    n = 0
+    for kw, bad, good in (({"max_short": 0.0}, [-0.5, 0.5], [0.25, 0.5]), ({"max_long": 0.0}, [0.5, -0.5], [-0.25, -0.5]),
+                          ({"max_short": -0.5, "max_long": 0.75}, [-0.75, 0.5], [-0.5, 0.75])):
+        for delay in (0, 1):
+            o, env = impl.classify(lambda: TradingEnvXY(X, Y, window=1, spread=0.0, rate=rate, steps_delay=delay, margin=0.0, fee=0.0,
+                                                        markup=0.0, **kw))
+            case = {"kind": "xy-bounds", "bounds": kw, "delay": delay, "action": bad}
+            n += 1
+            if o != "ok":
+                rep.violation("malformed_executed", "malformed_executed/xy/construct", "TradingEnvXY(%s) could not be built: %r" % (kw, env), case)
+                continue
+            env.reset()
+            o1, _ = impl.classify(lambda: env.step(np.array(good)))
+            if o1 != "ok":
+                rep.violation("allocation", "allocation/xy/%s" % sorted(kw)[0], "an action inside the declared bounds %s was refused" % (kw,), case)
+                continue
+            before = (dict(env.broker.holdings_quantity), len(env.broker.track_record))
+            outs = []
+            for _ in range(delay + 1):
+                o2, _v = impl.classify(lambda: env.step(np.array(bad)))
+                outs.append(o2)
+                if o2 != "ok":
+                    break
+            executed = False
+            for i in range(before[1], len(env.broker.track_record)):
+                al = [float(v) for v in env.broker.track_record[i].allocation.values()]
+                if sorted(al) == sorted(float(b_) for b_ in bad):
+                    executed = True
+            if outs[-1] == "ok" or executed:
+                rep.violation("malformed_executed", "malformed_executed/xy/%s" % sorted(kw)[0],
+                              "TradingEnvXY declared with %s executed the action %s, which lies outside those bounds (outcomes %s)" % (kw, bad, outs), case)
+    rep.traces += n
+    rep.evaluations += n
+    rep.count("xy_bounds_scenarios", n)
 
 
 def repro_models(tier):
